@@ -232,6 +232,9 @@ pub enum Bye {
     TcpHalfLineThenClose,
     /// the client asks for far more than the socket buffers hold (600 x a 64 kB value), reads nothing for a while, closes
     TcpSlowReader,
+    /// five HTTP requests in a row (the server has four workers, so one of them serves its second session of this
+    /// database): each request is a session of its own, sees itself counted and is gone when the request ends
+    HttpRequests,
     WebSocket,
 }
 
@@ -241,7 +244,7 @@ pub struct TCase {
 }
 
 fn tcase_strategy() -> impl Strategy<Value = TCase> {
-    let bye = prop_oneof![2 => Just(Bye::TcpClean), 2 => Just(Bye::TcpResetWithUnreadReplies), 2 => Just(Bye::TcpAfterANonUtf8Line), 1 => Just(Bye::TcpHalfLineThenClose), 1 => Just(Bye::TcpSlowReader), 2 => Just(Bye::WebSocket)];
+    let bye = prop_oneof![2 => Just(Bye::TcpClean), 2 => Just(Bye::TcpResetWithUnreadReplies), 2 => Just(Bye::TcpAfterANonUtf8Line), 1 => Just(Bye::TcpHalfLineThenClose), 1 => Just(Bye::TcpSlowReader), 2 => Just(Bye::HttpRequests), 2 => Just(Bye::WebSocket)];
     prop::collection::vec(bye, 1..5).prop_map(|byes| TCase { byes })
 }
 
@@ -277,6 +280,34 @@ pub fn run_transport_case(srv: &crate::props::c10::TServer, case: &TCase) -> Out
     }
     for (i, bye) in case.byes.iter().enumerate() {
         match bye {
+            Bye::HttpRequests => {
+                // an observer keeps the database selected all along (in process): the count moves between 1 and 2
+                let mut observer = Session::new();
+                observer.send(&srv.node, &format!("use-db {} ptok", db));
+                for r in 0..5 {
+                    match crate::transport::http_post(srv.http, &format!("use-db {} ptok;get $connections", db)) {
+                        Ok((_st, body)) => {
+                            // the session of the request is the only one that has the database selected
+                            if body.trim_end() != "empty;value 2" {
+                                out.fail = Some(("C17|transport|http-session-miscounted".into(), format!("HTTP request {} of 5 in a row (`use-db {} ptok;get $connections`) answered {:?}: the observer and the request's own session have that database selected, it must read 2", r, db, body)));
+                                let _ = observer.disconnect(&srv.node);
+                                return out;
+                            }
+                        }
+                        Err(e) => {
+                            out.fail = Some(("C17|transport|http-request-failed".into(), format!("HTTP request {} of 5 in a row (`use-db {} ptok;get $connections`) failed: {}", r, db, e)));
+                            let _ = observer.disconnect(&srv.node);
+                            return out;
+                        }
+                    }
+                    if !settle("1") {
+                        out.fail = Some(("C17|transport|connection-not-released|HttpRequests".into(), format!("HTTP request {} of 5 ended and 30 s later $connections of the database is {:?}, one session (the observer) has it selected", r, count(srv))));
+                        let _ = observer.disconnect(&srv.node);
+                        return out;
+                    }
+                }
+                let _ = observer.disconnect(&srv.node);
+            }
             Bye::WebSocket => {
                 let _ = crate::transport::ws_exchange_until(srv.ws, vec![crate::transport::Frame::Text(format!("use-db {} ptok", db)), crate::transport::Frame::Text("get $connections".into())], "value", 30_000);
             }
@@ -335,7 +366,7 @@ pub fn run_transport_case(srv: &crate::props::c10::TServer, case: &TCase) -> Out
                         let _ = s.write_all("get big\n".repeat(600).as_bytes());
                         crate::transport::real_sleep(std::time::Duration::from_millis(1500));
                     }
-                    Bye::WebSocket => unreachable!(),
+                    Bye::WebSocket | Bye::HttpRequests => unreachable!(),
                 }
                 drop(s);
             }
